@@ -7,7 +7,8 @@ children and threads only contain what scrapli created.
   c11_fakedev.py ssh-server     CTL        loopback asyncssh server; prints its port on stdout
 
 Per session the behaviour is read from the JSON control file CTL (env C11_CTL for ssh-tty):
-  {"neg": n, "partial": bool, "die_after": k|null, "silent_after": k|null, "hangup": seconds|null (ssh-tty: close the tty, exit later)}
+  {"neg": n, "partial": bool, "die_after": k|null, "silent_after": k|null, "hangup": seconds|null (ssh-tty: close the tty, exit later),
+   "login": "refuse"|null (ssh-tty / telnet-server: ask for the password / login name for ever)}
 die_after / silent_after count received lines of the session."""
 import json, os, sys, time
 
@@ -55,6 +56,14 @@ def ssh_tty():
     c = Ctl(os.environ.get("C11_CTL", ""))
     log_session(os.environ.get("C11_CTL", "/tmp/c11ctl"), f"tty-session pid={os.getpid()} argv={sys.argv[1:]}")
     out = sys.stdout.buffer
+    if c.c.get("login") == "refuse":
+        # an ssh that is never let in: password prompt, "Permission denied", password prompt, ...
+        out.write(b"u@fake's password: ")
+        out.flush()
+        while sys.stdin.buffer.readline():
+            out.write(b"\nPermission denied, please try again.\nu@fake's password: ")
+            out.flush()
+        return
     out.write(PROMPT)
     out.flush()
     while True:
@@ -94,7 +103,8 @@ def telnet_server(ctl_path):
         c = Ctl(ctl_path)
         log_session(ctl_path, "telnet-session")
         try:
-            conn.sendall(b"".join(bytes([IAC, DO, 1 + i % 40]) for i in range(c.c.get("neg", 0))) + PROMPT)
+            refuse = c.c.get("login") == "refuse"
+            conn.sendall(b"".join(bytes([IAC, DO, 1 + i % 40]) for i in range(c.c.get("neg", 0))) + (b"login: " if refuse else PROMPT))
             line = bytearray()
             silent = False
             while True:
@@ -127,7 +137,7 @@ def telnet_server(ctl_path):
                     if bytes(line).strip() == b"exit":
                         return
                     line.clear()
-                    out += b"\n" + PROMPT
+                    out += b"\n" + (b"Login incorrect\nlogin: " if refuse else PROMPT)
                 if not silent and out:
                     conn.sendall(bytes(out))
         except OSError:
